@@ -238,3 +238,10 @@ def check(ctx, w, interesting, rule="R13.9"):
                     "%s builds {path: the given path, recursive: %s}" % (fn.def_.split("::")[-1], str(want_rec).lower()), fn.loc(fn.line), detail=str(v[3])[:160],
                     fail="%s builds a WatchedPath with recursive = %s / path %s: the configured recursion mode is not the one registered" % (fn.def_, v[3].get("recursive"), pv))
     ctx.floor(rule, "WatchedPath constructors", n_c, 6)
+
+    # the watcher kind is compared with the configured one by value (derived PartialEq over all variants and their payloads): a changed poll
+    # interval is a different kind and recreates the watcher
+    WK = "watchexec::sources::fs::Watcher"
+    dk = {t: ctx.facts.derived(WK, t) for t in ("PartialEq", "Eq")}
+    ctx.require(dk["PartialEq"] is True, rule, "kind-equality", "sources::fs::Watcher compares by value (derived PartialEq)", loc, detail=str(dk),
+                fail="Watcher's PartialEq is no longer the derived one (%s): `watcher_type != config_watcher` can miss a change of the poll interval" % dk)
